@@ -528,7 +528,7 @@ def gen_constraint(rng, h, nvars):
         if q < 0.45:
             alts.append(("o", rng.choice(base), []))
         else:
-            alts.append(gen_sty(rng, h, nvars, 1, p_var=0.4, p_wild=0.2))
+            alts.append(gen_sty(rng, h, nvars, 2 if rng.random() < 0.25 else 1, p_var=0.4, p_wild=0.2))
             if alts[-1][0] in ("v", "w") and rng.random() < 0.7:
                 alts[-1] = ("o", rng.choice(base), [])
     ref = x
@@ -927,6 +927,45 @@ def gen_reentrant_elim(rng, h):
     return prog
 
 
+def gen_rise_program(rng, h):
+    """Targeted family: `x ** ... ** x ** r(x) [x <= T]` (or `x << [T, U]`) with T inside a chain;
+    the arguments climb the chain, the first ones stay below T, a later one may exceed it:
+    a constraint must not count as settled by the bounds the earlier arguments left."""
+    base = list(range(5, 5 + h.nbase))
+    un = [q for q in h.ids if h.arity(q) == 1]
+    deep = max(base, key=lambda o: (len(chain_of(h, o)), rng.random()))
+    ch = chain_of(h, deep)                      # deep first, root last
+    x = ("v", 0)
+    n = rng.randint(2, 3)
+    ti = rng.randrange(len(ch))
+    T = ("o", ch[ti], [])
+    if rng.random() < 0.7:
+        cs = [("sub", x, T, rng.random() < 0.2)]
+    else:
+        cs = [("elim", x, [T] + ([("o", rng.choice(base), [])] if rng.random() < 0.5 else []))]
+    wrap = rng.choice(un) if un and rng.random() < 0.3 else None
+    par = ("o", wrap, [x]) if wrap else x
+    res = rng.choice([x, ("o", rng.choice(un), [x])]) if un else x
+    body = res
+    for _ in range(n):
+        body = ("o", 3, [par, body])
+    idx = sorted(rng.randrange(len(ch)) for _ in range(n))
+    idx.reverse()                               # ascending in the order: larger index = higher type, so reverse sorts ascending types last
+    idx = sorted(idx, reverse=True) if rng.random() < 0.15 else sorted(idx, reverse=False)[::-1][::-1]
+    args = [ch[i] for i in sorted(idx)]         # from the most specific to the most general
+    if rng.random() < 0.2:
+        rng.shuffle(args)
+    prog = [("inst", (1, body, cs))]
+    cur, nvals = 0, 1
+    for a in args:
+        t = ("o", a, [])
+        prog.append(("inst", (0, ("o", wrap, [t]) if wrap else t, [])))
+        prog.append(("apply", cur, nvals, True))
+        cur = nvals + 1
+        nvals += 2
+    return prog
+
+
 def gen_elim_two_step(rng, h):
     """Targeted family: x ** x ** r [x << nested alternatives (some via
     with_parameters)], first applied to an argument with a fresh variable deep
@@ -1134,6 +1173,51 @@ def py_witness(h: C.Hierarchy, prog, mvals, cap=60):
             else:
                 if not py_sub(h, r, alts[0]) or (c.strict and r == alts[0]):
                     problems.append(("subtype-constraint-violated", r, alts))
+    # ... and the DECLARED constraints of every instantiated signature, read off the program (a
+    # constraint the engine has discharged is no longer attached to any variable)
+    def bind_schema(body, mt, env):
+        if body[0] == "w":
+            return True
+        if body[0] == "v":
+            env.setdefault(body[1], mt)
+            return True
+        mt = follow(mt)
+        if isinstance(mt, MVar) or mt.op != body[1] or len(mt.params) != len(body[2]):
+            return False
+        return all(bind_schema(b_, p_, env) for b_, p_ in zip(body[2], mt.params))
+
+    def inst_sty(t, env):
+        """schematic type -> ground (op, args) under env, or None (a wildcard, an unbound or
+        unresolved variable)"""
+        if t[0] == "w":
+            return None
+        if t[0] == "v":
+            m = env.get(t[1])
+            return m_ground(m, {}) if m is not None and m_resolved(m) else None
+        args = [inst_sty(a, env) for a in t[2]]
+        return None if any(a is None for a in args) else (t[1], args)
+    k = 0
+    for c in prog:
+        if c[0] == "inst":
+            n_, body, cs = c[1]
+            env = {}
+            if cs and k < len(mvals) and bind_schema(body, mvals[k], env):
+                for con in cs:
+                    if con[0] == "elimwp":
+                        con = ("elim", con[1], expand_wp(h.arity, con[2], con[3], con[4]))
+                    r = inst_sty(con[1], env)
+                    if r is None:
+                        continue
+                    if con[0] == "sub":
+                        t = inst_sty(con[2], env)
+                        if t is not None and (not py_sub(h, r, t) or (con[3] and r == t)):
+                            problems.append(("declared-subtype-constraint-violated", r, t))
+                    else:
+                        alts = [inst_sty(a, env) for a in con[2]]
+                        if all(a is not None for a in alts) and not any(py_sub(h, r, a) for a in alts):
+                            problems.append(("declared-elimination-constraint-violated", r, alts))
+        if c[0] in ("inst", "apply", "fix"):
+            k += 1
     # (iv)
     allv = []
     for v in mvals:
